@@ -64,6 +64,11 @@ func checkC01(c C01Case) *Violation {
 	if err != nil {
 		return vio("write-failed", "%v\nargs=%v\n%s", err, d.Flags.Argv(), d.YAML())
 	}
+	return comparePitches(d, song)
+}
+
+// comparePitches: the k-th run of note-ons of a single-track song against the k-th chord of the model.
+func comparePitches(d Doc, song *smfread.Song) *Violation {
 	if len(song.Tracks) != 1 {
 		return vio("tracks", "expected one track, got %d", len(song.Tracks))
 	}
